@@ -1,6 +1,7 @@
 package main
 
 import (
+	"golang.org/x/tools/go/ssa"
 	"fmt"
 	"go/token"
 	"go/types"
@@ -175,6 +176,10 @@ func (x *fx) eval(e *Expr, env *specEnv) *Val {
 			if obj := env.pkg.Scope().Lookup(e.Name); obj != nil {
 				if c, ok := obj.(*types.Const); ok {
 					return x.pkgConst(c)
+				}
+				// package-level function used as a value (compared with a function-typed argument)
+				if fo, ok := obj.(*types.Func); ok {
+					return &Val{T: fo.Type(), S: fmt.Sprint(x.g.funcIDByName(fo.FullName()))}
 				}
 			}
 		}
@@ -487,6 +492,19 @@ func (x *fx) evalField(e *Expr, env *specEnv) *Val {
 				obj := imp.Scope().Lookup(e.Name)
 				if c, ok := obj.(*types.Const); ok {
 					return x.pkgConst(c)
+				}
+				// package-level variable (e.g. the sentinel io.EOF): its value in the environment's memory
+				if v, ok := obj.(*types.Var); ok {
+					if sp := x.fn.Prog.ImportedPackage(imp.Path()); sp != nil {
+						if g, ok := sp.Members[v.Name()].(*ssa.Global); ok {
+							r := x.load(env.mem, x.valOf(g))
+							if types.IsInterface(r.T) && (strings.HasPrefix(g.Name(), "Err") || g.Name() == "EOF") {
+								x.assume("(not (= " + r.S + " (mk-iface 0 0)))")
+								x.assumptions["package-level sentinel error variables (ErrXxx, EOF) are non-nil"] = true
+							}
+							return r
+						}
+					}
 				}
 				panic(specErr("unknown constant " + id.Name + "." + e.Name))
 			}
